@@ -48,6 +48,19 @@ def corpus(tier, rng):
     integ = [f for f in integ if f not in SKIP_FILES]
     sc = [f"engine:{rng.randint(1, 10**6)}" for _ in range(2 if tier == "quick" else 8)]
     sc += [f"lib:{n}" for n in LIB]
+    # the scenario libraries written for C07 (every public component class of every family, hostile
+    # parameters) are models too: groups of them run in one child per process variant
+    try:
+        from .. import scenarios as _sc
+        for prefix in ("svc_", "ops_", "data_"):
+            cnt = len([n for n in _sc.SCENARIOS if n.startswith(prefix)])
+            if not cnt:
+                continue
+            groups = max(1, min(8, cnt // 10))
+            ks = range(groups) if tier != "quick" else [rng.randrange(groups)]
+            sc += [f"libgroup:{prefix}:{k}:{groups}" for k in ks]
+    except Exception:
+        pass
     if tier == "quick":
         files = [f for f in CORE_FILES if os.path.exists(os.path.join(repo, f))]
         rest = [f for f in integ if f not in files]
@@ -192,6 +205,10 @@ def run(tier, seed, replay=None):
         cls = "hash_seed" if var.startswith("hash") else "earlier_activity" if var == "prior" else \
             "wall_clock" if var == "wall" else var
         d = describe_diff(ref, got, pos)
+        rg = (ref.get("info") or {}).get("ranges") or {}
+        sub = next((n for n, (a, b) in rg.items() if a <= d.get("sim", -1) < b), None)
+        if sub:                      # a grouped run: name the scenario of the group that differs
+            s = f"lib:{sub}"
         chk.violation(f"{cls}:{s}", f"{v}: scenario {s} differs between the reference process and variant {var}: {d}",
                       {"scenario": s, "variant": var, "diff": d})
     chk.extra["scenarios"] = scenarios
